@@ -333,6 +333,10 @@ def gen_spec(seed, index, tier):
         steps.append(st)
     all_names = sorted(set(disp) | set(k for st in steps for k in st["settings"]) | {"dim", "pa", "cell"})
     routes = {n: rng.choice(["tag", "opt"]) for n in all_names}
+    # settings that only act together are most interesting when they arrive by different routes (own PRNG: the main stream is untouched)
+    brng = core.rng_of(seed, "c18-route-bias")
+    if "q_direction" in routes and "nac" in routes and brng.random() < 0.6:
+        routes["q_direction"], routes["nac"] = brng.choice([("tag", "opt"), ("opt", "tag")])
     stale = []
     if index % 2 == 1:
         stale = sorted(rng.sample(["BORN", "FORCE_CONSTANTS"], rng.randint(1, 2)))
